@@ -198,6 +198,25 @@ func (v *version) tokenEdits(w []pair) []string {
 	return res
 }
 
+var abvUniv []string
+
+// all metric abbreviations of all versions
+func abvUniverse() []string {
+	if abvUniv == nil {
+		seen := map[string]bool{}
+		for _, v := range versions {
+			for _, mt := range v.metrics {
+				if !seen[mt.abv] {
+					seen[mt.abv] = true
+					abvUniv = append(abvUniv, mt.abv)
+				}
+			}
+		}
+		sort.Strings(abvUniv)
+	}
+	return abvUniv
+}
+
 var valueUniv []string
 
 // all value strings of all metrics of all versions
@@ -299,6 +318,26 @@ func streamParse(thorough bool) {
 		}
 		for i := 0; i < nRand; i++ {
 			strs = append(strs, randomBytes())
+		}
+		// Vector() of random objects of this version: accepted by this parser only (C13, second clause)
+		for i := 0; i < 300; i++ {
+			strs = append(strs, v.vector(v.randomWF()))
+		}
+		// v3: two or three mandatory metrics missing (the error names the first missing one in specification order)
+		if v.name == "30" || v.name == "31" {
+			for i := 0; i < 400; i++ {
+				w := v.randomValid()
+				for k := 0; k < 2+rng.Intn(2); k++ {
+					idx := rng.Intn(len(w))
+					for _, mt := range v.metrics {
+						if mt.abv == w[idx].a && mt.mand {
+							w = append(w[:idx:idx], w[idx+1:]...)
+							break
+						}
+					}
+				}
+				strs = append(strs, v.render(w))
+			}
 		}
 		strs = dedupe(strs)
 		for _, s := range strs {
@@ -474,6 +513,15 @@ func streamObj(thorough bool) {
 					v.opSet(b, bad, mt.values[0])
 					v.opGet(b, bad)
 				}
+			}
+			// every abbreviation of every version (most are unknown to this one), with a value that is legal somewhere
+			for _, a := range abvUniverse() {
+				v.opGet(b, a)
+				for _, val := range []string{"N", "H", "X", "ND", "L"} {
+					v.opSet(b, a, val)
+				}
+			}
+			for range [1]int{} {
 			}
 		}
 		// single-metric objects from zero (every metric × value), observers on each
